@@ -28,8 +28,35 @@ structure Valid (s : Fw σ) : Prop where
 /-- the pending signal, if it excludes a machine, excludes an existing one -/
 def SigOK (s : Fw σ) : Prop := ∀ (x : Nat), s.signalPending = some (.allExcept x) → x < s.rt.length
 
-/-- number of counter-zero flags still unset -/
-def unset (s : Fw σ) : Nat := (if s.zeroedA then 0 else 1) + (if s.zeroedB then 0 else 1)
+/-- number of counter-zero flags of machine `mi` still unset -/
+def unset (s : Fw σ) (mi : Nat) : Nat :=
+  (if zeroedAOf s mi then 0 else 1) + (if zeroedBOf s mi then 0 else 1)
+
+theorem zeroedAOf_modRt (s : Fw σ) (mi : Nat) (f : Runtime → Runtime) :
+    zeroedAOf (s.modRt mi f) mi = ((s.rt[mi]?).map (fun r => (f r).zeroedA)).getD false := by
+  unfold zeroedAOf; rw [Fw.modRt_rt_self]; cases s.rt[mi]? <;> rfl
+
+theorem zeroedBOf_modRt (s : Fw σ) (mi : Nat) (f : Runtime → Runtime) :
+    zeroedBOf (s.modRt mi f) mi = ((s.rt[mi]?).map (fun r => (f r).zeroedB)).getD false := by
+  unfold zeroedBOf; rw [Fw.modRt_rt_self]; cases s.rt[mi]? <;> rfl
+
+theorem zeroedAOf_eq (s : Fw σ) (mi : Nat) : zeroedAOf s mi = ((s.rt[mi]?).map (·.zeroedA)).getD false := by
+  unfold zeroedAOf; cases s.rt[mi]? <;> rfl
+
+theorem zeroedBOf_eq (s : Fw σ) (mi : Nat) : zeroedBOf s mi = ((s.rt[mi]?).map (·.zeroedB)).getD false := by
+  unfold zeroedBOf; cases s.rt[mi]? <;> rfl
+
+/-- `unset` only depends on the runtime of the machine -/
+theorem unset_congr {s t : Fw σ} {mi : Nat} (h : t.rt[mi]? = s.rt[mi]?) : unset t mi = unset s mi := by
+  unfold unset zeroedAOf zeroedBOf; rw [h]
+
+/-- a runtime update that keeps the flags keeps `unset` -/
+theorem unset_modRt_keep (s : Fw σ) (mi : Nat) (f : Runtime → Runtime)
+    (hA : ∀ r, (f r).zeroedA = r.zeroedA) (hB : ∀ r, (f r).zeroedB = r.zeroedB) :
+    unset (s.modRt mi f) mi = unset s mi := by
+  unfold unset
+  rw [zeroedAOf_modRt, zeroedBOf_modRt, zeroedAOf_eq, zeroedBOf_eq]
+  cases s.rt[mi]? <;> simp [hA, hB]
 
 /-- the fault field only changes from none to a duration overflow -/
 def NoNewBad (s t : Fw σ) : Prop := t.fault = s.fault ∨ (s.fault = none ∧ t.fault = some .durOverflow)
@@ -98,8 +125,8 @@ theorem Valid.step {mi : Nat} {s t : Fw σ} (hV : Valid s) (h : Step mi s t) : V
   | setCtrA v => exact hV.modRt mi _ (fun m r hm hr => hV.cur mi m r hm hr)
   | setCtrB v => exact hV.modRt mi _ (fun m r hm hr => hV.cur mi m r hm hr)
   | signal => exact ⟨hV.lenRt, hV.lenAct, hV.ok, hV.cur⟩
-  | zeroA => exact ⟨hV.lenRt, hV.lenAct, hV.ok, hV.cur⟩
-  | zeroB => exact ⟨hV.lenRt, hV.lenAct, hV.ok, hV.cur⟩
+  | zeroA => exact hV.modRt mi _ (fun m r hm hr => hV.cur mi m r hm hr)
+  | zeroB => exact hV.modRt mi _ (fun m r hm hr => hV.cur mi m r hm hr)
   | clear hlen => exact ⟨hV.lenRt, by simpa using hV.lenAct, hV.ok, hV.cur⟩
   | sched => exact ⟨hV.lenRt, by simpa using hV.lenAct, hV.ok, hV.cur⟩
 
@@ -146,10 +173,28 @@ theorem keep_enterState (mi : Nat) (m : Machine) (cur next : Nat) (s : Fw σ) (h
     split
     · next a _ =>
       obtain ⟨hrl, _⟩ := sampleLimit_spec ρ mi a (s.modRt mi (fun r => { r with currentState := next }))
-      refine (h1.trans (keep_rngLog hrl)).trans (keep_modRt _ mi _ ?_)
+      refine ((h1.trans (keep_rngLog hrl)).trans (keep_modRt _ mi _ ?_)).trans ⟨rfl, rfl, rfl⟩
       rw [hrl.rt]; simpa using hmi
-    · exact h1.trans (keep_modRt _ mi _ (by simpa using hmi))
+    · exact (h1.trans (keep_modRt _ mi _ (by simpa using hmi))).trans ⟨rfl, rfl, rfl⟩
   · exact Keep.refl s
+
+theorem keep_storeCounterA (mi oldA newA : Nat) (s : Fw σ) (hmi : mi < s.rt.length) :
+    Keep s (storeCounterA mi oldA newA s).1 := by
+  unfold storeCounterA
+  simp only
+  have h1 := keep_modRt s mi (fun r => { r with counterA := newA }) hmi
+  split
+  · exact h1.trans (keep_modRt _ mi _ (by simpa using hmi))
+  · exact h1
+
+theorem keep_storeCounterB (mi oldB newB : Nat) (s : Fw σ) (hmi : mi < s.rt.length) :
+    Keep s (storeCounterB mi oldB newB s).1 := by
+  unfold storeCounterB
+  simp only
+  have h1 := keep_modRt s mi (fun r => { r with counterB := newB }) hmi
+  split
+  · exact h1.trans (keep_modRt _ mi _ (by simpa using hmi))
+  · exact h1
 
 theorem keep_applyCounterA (mi : Nat) (c : Option Counter) (oldA oldB : Nat) (s : Fw σ) (hmi : mi < s.rt.length) :
     Keep s (applyCounterA ρ mi c oldA oldB s).1 := by
@@ -157,22 +202,8 @@ theorem keep_applyCounterA (mi : Nat) (c : Option Counter) (oldA oldB : Nat) (s 
   cases c with
   | none => exact Keep.refl s
   | some c =>
-    simp only
-    cases hc : c.copy with
-    | true =>
-      simp only [if_true]
-      have h1 := keep_modRt s mi (fun r => { r with counterA := applyOp c.operation oldA oldB }) hmi
-      split
-      · exact h1.trans ⟨rfl, rfl, rfl⟩
-      · exact h1
-    | false =>
-      simp only [Bool.false_eq_true, if_false]
-      obtain ⟨hrl, _⟩ := sampleValue_spec ρ mi c s
-      have h1 := (keep_rngLog hrl).trans (keep_modRt (sampleValue ρ c s).2 mi
-        (fun r => { r with counterA := applyOp c.operation oldA (sampleValue ρ c s).1 }) (by rw [hrl.rt]; exact hmi))
-      split
-      · exact h1.trans ⟨rfl, rfl, rfl⟩
-      · exact h1
+    have hrl := (counterOperand_spec ρ mi c oldB s).1
+    exact (keep_rngLog hrl).trans (keep_storeCounterA mi _ _ _ (by rw [hrl.rt]; exact hmi))
 
 theorem keep_applyCounterB (mi : Nat) (c : Option Counter) (oldA oldB : Nat) (s : Fw σ) (hmi : mi < s.rt.length) :
     Keep s (applyCounterB ρ mi c oldA oldB s).1 := by
@@ -180,22 +211,8 @@ theorem keep_applyCounterB (mi : Nat) (c : Option Counter) (oldA oldB : Nat) (s 
   cases c with
   | none => exact Keep.refl s
   | some c =>
-    simp only
-    cases hc : c.copy with
-    | true =>
-      simp only [if_true]
-      have h1 := keep_modRt s mi (fun r => { r with counterB := applyOp c.operation oldB oldA }) hmi
-      split
-      · exact h1.trans ⟨rfl, rfl, rfl⟩
-      · exact h1
-    | false =>
-      simp only [Bool.false_eq_true, if_false]
-      obtain ⟨hrl, _⟩ := sampleValue_spec ρ mi c s
-      have h1 := (keep_rngLog hrl).trans (keep_modRt (sampleValue ρ c s).2 mi
-        (fun r => { r with counterB := applyOp c.operation oldB (sampleValue ρ c s).1 }) (by rw [hrl.rt]; exact hmi))
-      split
-      · exact h1.trans ⟨rfl, rfl, rfl⟩
-      · exact h1
+    have hrl := (counterOperand_spec ρ mi c oldA s).1
+    exact (keep_rngLog hrl).trans (keep_storeCounterB mi _ _ _ (by rw [hrl.rt]; exact hmi))
 
 theorem keep_scheduleAction (mi next : Nat) (s : Fw σ) (m : Machine) (st : State)
     (hm : s.machines[mi]? = some m) (hst : m.states[next]? = some st) (hlen : mi < s.actions.length) :
@@ -224,81 +241,100 @@ theorem keep_scheduleAction (mi next : Nat) (s : Fw σ) (m : Machine) (st : Stat
       obtain ⟨hrl, _⟩ := sampleDuration_spec ρ mi (.updateTimer rp du lim) s
       exact (keep_rngLog hrl).trans ⟨rfl, rfl, rfl⟩
 
-/-- flags only get set -/
-theorem unset_le_of_step {mi : Nat} {s t : Fw σ} (h : Step mi s t) : unset t ≤ unset s := by
-  cases h with
-  | zeroA => simp only [unset]; cases s.zeroedA <;> cases s.zeroedB <;> simp
-  | zeroB => simp only [unset]; cases s.zeroedA <;> cases s.zeroedB <;> simp
-  | push | rng | signal | clear | sched => exact Nat.le_refl _
-  | fault | setState | setLimit | setCtrA | setCtrB => simp [unset]
+theorem bool_cnt (x y x' y' : Bool) (h1 : x = true → x' = true) (h2 : y = true → y' = true) :
+    ((if x' = true then 0 else 1) + (if y' = true then 0 else 1) : Nat) ≤
+      (if x = true then 0 else 1) + (if y = true then 0 else 1) := by
+  cases x <;> cases y <;> cases x' <;> cases y' <;> simp_all
 
-theorem unset_le_of_reach {mi : Nat} {s t : Fw σ} (h : Reach mi s t) : unset t ≤ unset s := by
+/-- flags only get set -/
+theorem unset_modRt_le (s : Fw σ) (mi : Nat) (f : Runtime → Runtime)
+    (hA : ∀ r, r.zeroedA = true → (f r).zeroedA = true) (hB : ∀ r, r.zeroedB = true → (f r).zeroedB = true) :
+    unset (s.modRt mi f) mi ≤ unset s mi := by
+  unfold unset
+  rw [zeroedAOf_modRt, zeroedBOf_modRt, zeroedAOf_eq, zeroedBOf_eq]
+  cases hr : s.rt[mi]? with
+  | none => simp
+  | some r =>
+    simp only [Option.map_some, Option.getD_some]
+    exact bool_cnt _ _ _ _ (hA r) (hB r)
+
+theorem unset_le_of_step {mi : Nat} {s t : Fw σ} (h : Step mi s t) : unset t mi ≤ unset s mi := by
+  cases h with
+  | zeroA => exact unset_modRt_le s mi _ (fun _ _ => rfl) (fun _ h => h)
+  | zeroB => exact unset_modRt_le s mi _ (fun _ h => h) (fun _ _ => rfl)
+  | push | rng | signal | clear | sched => exact Nat.le_refl _
+  | fault => exact Nat.le_of_eq (unset_congr (by simp))
+  | setState | setLimit | setCtrA | setCtrB => exact unset_modRt_le s mi _ (fun _ h => h) (fun _ h => h)
+
+theorem unset_le_of_reach {mi : Nat} {s t : Fw σ} (h : Reach mi s t) : unset t mi ≤ unset s mi := by
   induction h with
   | refl => exact Nat.le_refl _
   | tail _ st ih => exact Nat.le_trans (unset_le_of_step st) ih
 
+theorem unset_storeCounterA (mi oldA newA : Nat) (s : Fw σ) (hmi : mi < s.rt.length) :
+    unset (storeCounterA mi oldA newA s).1 mi + (if (storeCounterA mi oldA newA s).2 then 1 else 0) ≤ unset s mi := by
+  unfold storeCounterA
+  simp only
+  have hr' : ∃ r, s.rt[mi]? = some r := ⟨s.rt[mi], List.getElem?_eq_getElem hmi⟩
+  obtain ⟨r, hr⟩ := hr'
+  have hu1 : unset (s.modRt mi (fun r => { r with counterA := newA })) mi = unset s mi :=
+    unset_modRt_keep s mi (fun r => { r with counterA := newA }) (fun _ => rfl) (fun _ => rfl)
+  split
+  · next h =>
+    simp only [Bool.and_eq_true, Bool.not_eq_true'] at h
+    have hz := h.2
+    rw [zeroedAOf_modRt, hr] at hz
+    simp only [Option.map_some, Option.getD_some] at hz
+    unfold unset
+    rw [zeroedAOf_modRt, zeroedBOf_modRt, Fw.modRt_rt_self, hr, zeroedAOf_eq, zeroedBOf_eq, hr]
+    simp [hz]
+    omega
+  · simp [hu1]
 
-theorem unset_applyCounterA (mi : Nat) (c : Option Counter) (oldA oldB : Nat) (s : Fw σ) :
-    unset (applyCounterA ρ mi c oldA oldB s).1 + (if (applyCounterA ρ mi c oldA oldB s).2 then 1 else 0) ≤ unset s := by
+theorem unset_storeCounterB (mi oldB newB : Nat) (s : Fw σ) (hmi : mi < s.rt.length) :
+    unset (storeCounterB mi oldB newB s).1 mi + (if (storeCounterB mi oldB newB s).2 then 1 else 0) ≤ unset s mi := by
+  unfold storeCounterB
+  simp only
+  have hr' : ∃ r, s.rt[mi]? = some r := ⟨s.rt[mi], List.getElem?_eq_getElem hmi⟩
+  obtain ⟨r, hr⟩ := hr'
+  have hu1 : unset (s.modRt mi (fun r => { r with counterB := newB })) mi = unset s mi :=
+    unset_modRt_keep s mi (fun r => { r with counterB := newB }) (fun _ => rfl) (fun _ => rfl)
+  split
+  · next h =>
+    simp only [Bool.and_eq_true, Bool.not_eq_true'] at h
+    have hz := h.2
+    rw [zeroedBOf_modRt, hr] at hz
+    simp only [Option.map_some, Option.getD_some] at hz
+    unfold unset
+    rw [zeroedAOf_modRt, zeroedBOf_modRt, Fw.modRt_rt_self, hr, zeroedAOf_eq, zeroedBOf_eq, hr]
+    simp [hz]
+  · simp [hu1]
+
+theorem unset_applyCounterA (mi : Nat) (c : Option Counter) (oldA oldB : Nat) (s : Fw σ) (hmi : mi < s.rt.length) :
+    unset (applyCounterA ρ mi c oldA oldB s).1 mi + (if (applyCounterA ρ mi c oldA oldB s).2 then 1 else 0) ≤ unset s mi := by
   unfold applyCounterA
   cases c with
   | none => simp
   | some c =>
-    simp only
-    have key : ∀ (p : Nat × Fw σ), p.2.zeroedA = s.zeroedA → p.2.zeroedB = s.zeroedB →
-        unset (if (decide (oldA ≠ 0) && decide (applyOp c.operation oldA p.1 = 0) &&
-            !(p.2.modRt mi (fun r => { r with counterA := applyOp c.operation oldA p.1 })).zeroedA) = true
-          then (({ (p.2.modRt mi (fun r => { r with counterA := applyOp c.operation oldA p.1 })) with zeroedA := true } : Fw σ), true)
-          else (p.2.modRt mi (fun r => { r with counterA := applyOp c.operation oldA p.1 }), false)).1 +
-        (if (if (decide (oldA ≠ 0) && decide (applyOp c.operation oldA p.1 = 0) &&
-            !(p.2.modRt mi (fun r => { r with counterA := applyOp c.operation oldA p.1 })).zeroedA) = true
-          then (({ (p.2.modRt mi (fun r => { r with counterA := applyOp c.operation oldA p.1 })) with zeroedA := true } : Fw σ), true)
-          else (p.2.modRt mi (fun r => { r with counterA := applyOp c.operation oldA p.1 }), false)).2 then 1 else 0) ≤ unset s := by
-      intro p hA hB
-      split
-      · next h =>
-        simp only [Bool.and_eq_true, Bool.not_eq_true', Fw.modRt_zeroedA] at h
-        rw [hA] at h
-        simp [unset, h.2, hB]
-        omega
-      · simp [unset, hA, hB]
-    by_cases hc : c.copy = true
-    · simp only [hc, if_true]
-      exact key (oldB, s) rfl rfl
-    · simp only [hc, if_false]
-      obtain ⟨hrl, _⟩ := sampleValue_spec ρ mi c s
-      exact key (sampleValue ρ c s) hrl.zeroedA hrl.zeroedB
+    have hrl := (counterOperand_spec ρ mi c oldB s).1
+    have := unset_storeCounterA mi oldA (applyOp c.operation oldA (counterOperand ρ c oldB s).1)
+      (counterOperand ρ c oldB s).2 (by rw [hrl.rt]; exact hmi)
+    have h2 : unset (counterOperand ρ c oldB s).2 mi = unset s mi := unset_congr (by rw [hrl.rt])
+    simp only []
+    omega
 
-theorem unset_applyCounterB (mi : Nat) (c : Option Counter) (oldA oldB : Nat) (s : Fw σ) :
-    unset (applyCounterB ρ mi c oldA oldB s).1 + (if (applyCounterB ρ mi c oldA oldB s).2 then 1 else 0) ≤ unset s := by
+theorem unset_applyCounterB (mi : Nat) (c : Option Counter) (oldA oldB : Nat) (s : Fw σ) (hmi : mi < s.rt.length) :
+    unset (applyCounterB ρ mi c oldA oldB s).1 mi + (if (applyCounterB ρ mi c oldA oldB s).2 then 1 else 0) ≤ unset s mi := by
   unfold applyCounterB
   cases c with
   | none => simp
   | some c =>
-    simp only
-    have key : ∀ (p : Nat × Fw σ), p.2.zeroedA = s.zeroedA → p.2.zeroedB = s.zeroedB →
-        unset (if (decide (oldB ≠ 0) && decide (applyOp c.operation oldB p.1 = 0) &&
-            !(p.2.modRt mi (fun r => { r with counterB := applyOp c.operation oldB p.1 })).zeroedB) = true
-          then (({ (p.2.modRt mi (fun r => { r with counterB := applyOp c.operation oldB p.1 })) with zeroedB := true } : Fw σ), true)
-          else (p.2.modRt mi (fun r => { r with counterB := applyOp c.operation oldB p.1 }), false)).1 +
-        (if (if (decide (oldB ≠ 0) && decide (applyOp c.operation oldB p.1 = 0) &&
-            !(p.2.modRt mi (fun r => { r with counterB := applyOp c.operation oldB p.1 })).zeroedB) = true
-          then (({ (p.2.modRt mi (fun r => { r with counterB := applyOp c.operation oldB p.1 })) with zeroedB := true } : Fw σ), true)
-          else (p.2.modRt mi (fun r => { r with counterB := applyOp c.operation oldB p.1 }), false)).2 then 1 else 0) ≤ unset s := by
-      intro p hA hB
-      split
-      · next h =>
-        simp only [Bool.and_eq_true, Bool.not_eq_true', Fw.modRt_zeroedB] at h
-        rw [hB] at h
-        simp [unset, h.2, hA]
-      · simp [unset, hA, hB]
-    by_cases hc : c.copy = true
-    · simp only [hc, if_true]
-      exact key (oldA, s) rfl rfl
-    · simp only [hc, if_false]
-      obtain ⟨hrl, _⟩ := sampleValue_spec ρ mi c s
-      exact key (sampleValue ρ c s) hrl.zeroedA hrl.zeroedB
-
+    have hrl := (counterOperand_spec ρ mi c oldA s).1
+    have := unset_storeCounterB mi oldB (applyOp c.operation oldB (counterOperand ρ c oldA s).1)
+      (counterOperand ρ c oldA s).2 (by rw [hrl.rt]; exact hmi)
+    have h2 : unset (counterOperand ρ c oldA s).2 mi = unset s mi := unset_congr (by rw [hrl.rt])
+    simp only []
+    omega
 
 /-- no new fault other than a duration overflow, and the pending signal stays well-formed -/
 def Safe (s t : Fw σ) : Prop := NoNewBad s t ∧ (SigOK s → SigOK t)
@@ -316,10 +352,10 @@ theorem Valid.states_some {s : Fw σ} (hV : Valid s) {mi : Nat} {m : Machine} {r
   · exact absurd h hne
 
 theorem safe_main (fuel : Nat) :
-    (∀ mi ev (s : Fw σ), Valid s → mi < s.rt.length → 2 * unset s + 2 ≤ fuel →
+    (∀ mi ev (s : Fw σ), Valid s → mi < s.rt.length → 2 * unset s mi + 2 ≤ fuel →
       Safe s (transition ρ fuel mi ev s).1) ∧
     (∀ mi (s : Fw σ), Valid s → mi < s.rt.length →
-      (∀ r, s.rt[mi]? = some r → r.currentState ≠ STATE_END) → 2 * unset s + 1 ≤ fuel →
+      (∀ r, s.rt[mi]? = some r → r.currentState ≠ STATE_END) → 2 * unset s mi + 1 ≤ fuel →
       Safe s (updateCounter ρ fuel mi s).1) := by
   induction fuel with
   | zero =>
@@ -357,17 +393,16 @@ theorem safe_main (fuel : Nat) :
             rng := (ρ.u (s.push (.trans mi ev.toNat r.currentState)).rng).2 }).push
               (.draw (ρ.u (s.push (.trans mi ev.toNat r.currentState)).rng).1)) = s1
         have k1 : Keep s s1 := by subst hs1; exact ⟨rfl, rfl, rfl⟩
-        have e1 : s1.machines = s.machines ∧ s1.rt = s.rt ∧ s1.actions = s.actions ∧
-            s1.zeroedA = s.zeroedA ∧ s1.zeroedB = s.zeroedB := by subst hs1; exact ⟨rfl, rfl, rfl, rfl, rfl⟩
+        have e1 : s1.machines = s.machines ∧ s1.rt = s.rt ∧ s1.actions = s.actions := by
+          subst hs1; exact ⟨rfl, rfl, rfl⟩
         cases hss : sampleState vec (ρ.u (s.push (.trans mi ev.toNat r.currentState)).rng).1 with
         | none => simp only []; exact k1.safe
         | some next =>
         simp only []
         generalize hs2 : s1.push (.sampled mi ev.toNat next) = s2
         have k2 : Keep s s2 := by subst hs2; exact k1.trans ⟨rfl, rfl, rfl⟩
-        have e2 : s2.machines = s.machines ∧ s2.rt = s.rt ∧ s2.actions = s.actions ∧
-            s2.zeroedA = s.zeroedA ∧ s2.zeroedB = s.zeroedB := by
-          subst hs2; exact ⟨e1.1, e1.2.1, e1.2.2.1, e1.2.2.2.1, e1.2.2.2.2⟩
+        have e2 : s2.machines = s.machines ∧ s2.rt = s.rt ∧ s2.actions = s.actions := by
+          subst hs2; exact ⟨e1.1, e1.2.1, e1.2.2⟩
         have hmi2 : mi < s2.rt.length := by rw [e2.2.1]; exact hmi
         obtain ⟨t, htv, htx⟩ := sampleState_mem _ _ _ hss
         have htgt := hmok.targets st hstm ev.toNat vec hvec t htv
@@ -383,23 +418,31 @@ theorem safe_main (fuel : Nat) :
             simp only at hx ⊢
             cases hsp : s2.signalPending with
             | none => rw [hsp] at hx; simp at hx; rw [← hx]; exact hmi2
-            | some p => rw [hsp] at hx; simp at hx
+            | some p =>
+              rw [hsp] at hx
+              cases p with
+              | all => simp at hx
+              | allExcept o =>
+                simp only at hx
+                split at hx
+                · simp at hx; rw [← hx]; exact hmi2
+                · simp at hx
           · next hnsig =>
             have hnext : next < m.states.length := by
               rcases htgt with h | h | h
               · exact h
               · exact absurd h hnend2
               · exact absurd h hnsig
-            have hV2 : Valid s2 := ⟨by rw [e2.2.1, e2.1]; exact hV.lenRt, by rw [e2.2.2.1, e2.1]; exact hV.lenAct,
+            have hV2 : Valid s2 := ⟨by rw [e2.2.1, e2.1]; exact hV.lenRt, by rw [e2.2.2, e2.1]; exact hV.lenAct,
               by rw [e2.1]; exact hV.ok, fun i m' r' hm' hr' => hV.cur i m' r' (by rw [← e2.1]; exact hm') (by rw [← e2.2.1]; exact hr')⟩
             have hT : TargetOK s2 mi next :=
               ⟨⟨m, r, st, ev.toNat, vec, t, by rw [e2.1]; exact hm, by rw [e2.2.1]; exact hr, hst, hvec, htv, htx⟩, hnsig⟩
             have hre3 := enterState_reach ρ mi m r.currentState next s2 hT
             have k3 := k2.trans (keep_enterState ρ mi m r.currentState next s2 hmi2 hnext)
             obtain ⟨r1', hr1', hr1c⟩ := enterState_cur ρ mi m r.currentState next s2 r (by rw [e2.2.1]; exact hr) rfl
-            have hu3 : unset (enterState ρ mi m r.currentState next s2) ≤ unset s := by
+            have hu3 : unset (enterState ρ mi m r.currentState next s2) mi ≤ unset s mi := by
               have := unset_le_of_reach hre3
-              have h2 : unset s2 = unset s := by simp [unset, e2.2.2.2.1, e2.2.2.2.2]
+              have h2 : unset s2 mi = unset s mi := unset_congr (by rw [e2.2.1])
               omega
             have hV3 : Valid (enterState ρ mi m r.currentState next s2) := hV2.reach hre3
             have hf3 := hre3.frame
@@ -469,28 +512,32 @@ theorem safe_main (fuel : Nat) :
       simp only []
       have kA := keep_applyCounterA ρ mi st.counterA r.counterA r.counterB s hmi
       have reA := applyCounterA_reach ρ mi st.counterA r.counterA r.counterB s
-      have uA := unset_applyCounterA ρ mi st.counterA r.counterA r.counterB s
+      have uA := unset_applyCounterA ρ mi st.counterA r.counterA r.counterB s hmi
       generalize applyCounterA ρ mi st.counterA r.counterA r.counterB s = ra at kA reA uA ⊢
       have hmiA : mi < ra.1.rt.length := by rw [kA.rtLen]; exact hmi
       have kB := keep_applyCounterB ρ mi st.counterB r.counterA r.counterB ra.1 hmiA
       have reB := applyCounterB_reach ρ mi st.counterB r.counterA r.counterB ra.1
-      have uB := unset_applyCounterB ρ mi st.counterB r.counterA r.counterB ra.1
+      have uB := unset_applyCounterB ρ mi st.counterB r.counterA r.counterB ra.1 hmiA
       generalize applyCounterB ρ mi st.counterB r.counterA r.counterB ra.1 = rb at kB reB uB ⊢
-      have kAB := kA.trans kB
-      have hVB : Valid rb.1 := (hV.reach reA).reach reB
-      have hmiB : mi < rb.1.rt.length := by rw [kAB.rtLen]; exact hmi
+      have kAB0 := kA.trans kB
+      have hVB0 : Valid rb.1 := (hV.reach reA).reach reB
+      generalize hs2 : rb.1.push (.counter mi r.counterA (counterAOf rb.1 mi) r.counterB (counterBOf rb.1 mi)) = s2
+      have kAB : Keep s s2 := by subst hs2; exact kAB0.trans ⟨rfl, rfl, rfl⟩
+      have hVB : Valid s2 := by subst hs2; exact ⟨hVB0.lenRt, hVB0.lenAct, hVB0.ok, hVB0.cur⟩
+      have hus2 : unset s2 mi = unset rb.1 mi := by subst hs2; rfl
+      have hmiB : mi < s2.rt.length := by rw [kAB.rtLen]; exact hmi
       split
       · next hz =>
-        have hu : 2 * unset rb.1 + 2 ≤ n := by
+        have hu : 2 * unset s2 mi + 2 ≤ n := by
           have : (if ra.2 = true then 1 else 0) + (if rb.2 = true then 1 else 0) ≥ 1 := by
             cases ha : ra.2 <;> cases hb : rb.2 <;> simp_all
           omega
-        have hT := ihT mi .counterZero rb.1 hVB hmiB hu
-        have hreT := transition_reach ρ n mi .counterZero rb.1
+        have hT := ihT mi .counterZero s2 hVB hmiB hu
+        have hreT := transition_reach ρ n mi .counterZero s2
         have hVT := hVB.reach hreT
-        have hlenT : mi < (transition ρ n mi .counterZero rb.1).1.actions.length := by
+        have hlenT : mi < (transition ρ n mi .counterZero s2).1.actions.length := by
           rw [hVT.lenAct, ← hVT.lenRt, hreT.frame.rtLen]; exact hmiB
-        have : ∃ a, (transition ρ n mi .counterZero rb.1).1.actions[mi]? = some a :=
+        have : ∃ a, (transition ρ n mi .counterZero s2).1.actions[mi]? = some a :=
           ⟨_, List.getElem?_eq_getElem hlenT⟩
         obtain ⟨a, ha⟩ := this
         rw [ha]
